@@ -6,6 +6,7 @@ import (
 	"strings"
 
 	"verif/harness/core"
+	"verif/harness/srctab"
 
 	"github.com/Chocapikk/pgread/pgdump"
 )
@@ -42,5 +43,12 @@ func init() {
 		}
 		fmt.Fprintf(out, "/-- fixedLengths has an entry for name (19 ↦ 64): probed as DecodeType(63 bytes, 19) == nil -/\n")
 		fmt.Fprintf(out, "def nameFixed64 : Bool := %v\n", pgdump.DecodeType(short, pgdump.OidName) == nil)
+		// types.go:arrayElemTypes, read from the source this harness was built against (package srctab); the table of
+		// Model.Scalars.decodeType.  Area `arrays` emits the same table; Props.C07.C07_tables proves the two equal.
+		def, err := srctab.LeanDef()
+		if err != nil {
+			panic("arrayElemTypes cannot be read from the source: " + err.Error())
+		}
+		out.WriteString(def)
 	})
 }
